@@ -129,6 +129,10 @@ bool QXmppBookmarkManager::setBookmarks(const QXmppBookmarkSet &bookmarks)
 bool QXmppBookmarkManager::handleStanza(const QDomElement &stanza)
 {
     if (stanza.tagName() == u"iq") {
+        // only responses are handled here; requests are left to the client's fallback (error reply)
+        if (const auto type = stanza.attribute(u"type"_s); type == u"get" || type == u"set") {
+            return false;
+        }
         if (QXmppPrivateStorageIq::isPrivateStorageIq(stanza)) {
             QXmppPrivateStorageIq iq;
             iq.parse(stanza);
